@@ -614,4 +614,6 @@ def execute(prog, sspec, props=('C03',), keep_log=False):
         'nontrivial': len(w.subs) >= 2 or sch.nswitch_traced > 0,
         'log': sch.log_list if keep_log else None,
         'outcomes': [(I.i, sorted(I.args), I.t0, I.outcome) for I in w.invs],
+        'trace': {'invocations': [[I.i, sorted(I.args), I.t0, I.t1, I.outcome] for I in w.invs],
+                  'waits': [[W.wid, W.t0, W.t1] for W in w.waits], 'end': w.end},
     }
